@@ -4,6 +4,8 @@ import (
 	"errors"
 	"fmt"
 	"io"
+	"net"
+	"os"
 	"runtime"
 	"strings"
 	"sync"
@@ -17,22 +19,23 @@ import (
 // Reads deliver the scripted chunks, then block until Close (a custom endpoint is re-provided on EOF, so a finite
 // stream must end by blocking). Writes are recorded call by call; a write gate can block or fail the k-th call.
 type memConn struct {
-	mu        sync.Mutex
-	chunks    [][]byte
-	readGate  chan struct{} // closed => reads may proceed
-	closed    chan struct{}
-	closeCnt  int
-	writes    [][]byte
-	writeCnt  int
-	blockAt   int // index of the Write call that blocks until close (-1: none)
-	failAt    int // index of the Write call that fails (-1: none)
-	failLen   int // number of consecutive Write calls that fail, starting at failAt (0 means 1)
-	pauseAt   int           // index of the Write call that waits for `release` and then proceeds normally (-1: none)
-	release   chan struct{} // closed by the harness to let the paused Write go on
-	delivered chan struct{} // closed when every chunk has been handed to the reader
-	endErr    error         // returned by Read once the chunks are exhausted (nil: block until Close)
-	delays    map[int]time.Duration // pause before handing out the chunk with this index (counted from the first)
-	handed    int
+	mu          sync.Mutex
+	chunks      [][]byte
+	readGate    chan struct{} // closed => reads may proceed
+	closed      chan struct{}
+	closeCnt    int
+	writes      [][]byte
+	writeCnt    int
+	blockAt     int                   // index of the Write call that blocks until close (-1: none)
+	failAt      int                   // index of the Write call that fails (-1: none)
+	failLen     int                   // number of consecutive Write calls that fail, starting at failAt (0 means 1)
+	failTimeout bool                  // the failing Write calls report a time-out (net.Error) instead of a plain error
+	pauseAt     int                   // index of the Write call that waits for `release` and then proceeds normally (-1: none)
+	release     chan struct{}         // closed by the harness to let the paused Write go on
+	delivered   chan struct{}         // closed when every chunk has been handed to the reader
+	endErr      error                 // returned by Read once the chunks are exhausted (nil: block until Close)
+	delays      map[int]time.Duration // pause before handing out the chunk with this index (counted from the first)
+	handed      int
 }
 
 func newMemConn(chunks [][]byte) *memConn {
@@ -92,15 +95,19 @@ func (c *memConn) Write(p []byte) (int, error) {
 	k := c.writeCnt
 	c.writeCnt++
 	c.mu.Unlock()
-	if c.failAt >= 0 && k >= c.failAt && k < c.failAt+max(1, c.failLen) {
-		return 0, trErr{k}
-	}
 	if k == c.pauseAt {
 		select {
 		case <-c.release:
 		case <-c.closed:
 			return 0, errMemClosed
 		}
+	}
+	if c.failAt >= 0 && k >= c.failAt && k < c.failAt+max(1, c.failLen) {
+		if c.failTimeout {
+			// what a socket with a write deadline returns: a net.Error whose Timeout() is true
+			return 0, &net.OpError{Op: "write", Net: "mem", Err: os.ErrDeadlineExceeded}
+		}
+		return 0, trErr{k}
 	}
 	if k == c.blockAt {
 		<-c.closed
